@@ -1,7 +1,7 @@
 (** aries/mux.go: the Mux (model in Radix.v) refines a trie-free reference
     that keeps two plain maps and answers [Route] by a brute-force scan for
     the longest registered prefix. *)
-From Coq Require Import List NArith Bool Lia Arith.
+From Coq Require Import List NArith Bool Lia Arith Permutation.
 From Verif Require Import Aries.Str Aries.Radix Aries.RadixProofs.
 Import ListNotations.
 
@@ -227,4 +227,67 @@ Proof.
       destruct ok; [apply P; rewrite H0; auto | simpl; rewrite H0; auto].
     + pose proof (X r (trim_slash s) f). destruct (ref_exact r (trim_slash s) f) as [r1' ok]. simpl in *.
       destruct ok; [apply P; rewrite H0; auto | simpl; rewrite H0; auto].
+Qed.
+
+(** * Registration order *)
+Definition prefix_ops (l : list (str * N)) : list mux_op :=
+  map (fun sf => OpPrefix (fst sf) (snd sf)) l.
+
+Lemma aset_new {A} k (v : A) l : ~ In k (keys l) -> aset k v l = l ++ [(k, v)].
+Proof.
+  induction l as [|[k' v'] r IH]; simpl; intros NI; auto.
+  destruct (str_eqb k' k) eqn:E.
+  - apply str_eqb_eq in E. subst. exfalso. auto.
+  - rewrite IH; auto.
+Qed.
+
+Lemma ref_run_prefix_ops l : forall r,
+  NoDup (keys l) -> (forall w, In w (keys l) -> w <> [] /\ ~ In w (keys (r_prefixes r))) ->
+  ref_run r (prefix_ops l) = (RMux (r_exacts r) (r_prefixes r ++ l), map (fun _ => true) l).
+Proof.
+  induction l as [|[s f] l IH]; intros r ND H; simpl.
+  - rewrite app_nil_r. destruct r; auto.
+  - destruct (H s (or_introl eq_refl)) as [Hne Hni]. unfold ref_prefix.
+    rewrite (proj2 (str_eqb_neq s []) Hne), (proj2 (alookup_None s (r_prefixes r)) Hni).
+    rewrite aset_new by auto. inversion ND as [|? ? NI ND']; subst.
+    rewrite IH; auto.
+    + simpl. rewrite <- app_assoc. auto.
+    + intros w I. destruct (H w (or_intror I)) as [A B]. split; auto. simpl.
+      unfold keys. rewrite map_app, in_app_iff. simpl. intros [X|[X|[]]]; auto.
+      subst. auto.
+Qed.
+
+Lemma alookup_perm {A} (l l' : list (str * A)) k :
+  NoDup (keys l) -> Permutation l l' -> alookup k l = alookup k l'.
+Proof.
+  intros ND P. induction P as [|[r v] l l' P IH|[r1 v1] [r2 v2] l|l l' l'' P1 IH1 P2 IH2]; auto.
+  - simpl. inversion ND; subst. rewrite IH; auto.
+  - simpl. destruct (str_eqb r1 k) eqn:E1, (str_eqb r2 k) eqn:E2; auto.
+    apply str_eqb_eq in E1, E2. subst. inversion ND as [|? ? NI _]. exfalso. apply NI. simpl. auto.
+  - rewrite IH1; auto. apply IH2. eapply Permutation_NoDup; [apply Permutation_map; eauto | auto].
+Qed.
+
+(** Distinct non-empty prefixes registered in any two orders: the two
+    Muxes route every path alike. *)
+Theorem mux_order_irrelevant l l' :
+  NoDup (keys l) -> (forall w, In w (keys l) -> w <> []) -> Permutation l l' ->
+  exists m m', mux_run new_mux (prefix_ops l) = Some (m, map (fun _ => true) l) /\
+               mux_run new_mux (prefix_ops l') = Some (m', map (fun _ => true) l') /\
+               forall path, mux_route m path = mux_route m' path.
+Proof.
+  intros ND NE P.
+  assert (ND' : NoDup (keys l')) by (eapply Permutation_NoDup; [apply Permutation_map; eauto | auto]).
+  assert (NE' : forall w, In w (keys l') -> w <> []).
+  { intros w I. apply NE. eapply Permutation_in; [apply Permutation_map, Permutation_sym; eauto | auto]. }
+  destruct (mux_refines_scan (prefix_ops l)) as (m & E & F).
+  destruct (mux_refines_scan (prefix_ops l')) as (m' & E' & F').
+  rewrite ref_run_prefix_ops in E, F by (auto; intros w I; split; auto).
+  rewrite ref_run_prefix_ops in E', F' by (auto; intros w I; split; auto).
+  simpl in *. exists m, m'. split; auto. split; auto. intros path. rewrite F, F'.
+  unfold ref_route. simpl.
+  assert (L : longest_prefix (keys l) path = longest_prefix (keys l') path).
+  { apply (best_unique (keys l') path); [|apply longest_prefix_best].
+    apply (best_ext (keys l)); [|apply longest_prefix_best].
+    intros w _. split; apply Permutation_in; apply Permutation_map; auto. apply Permutation_sym; auto. }
+  rewrite L. apply alookup_perm; auto.
 Qed.
